@@ -47,7 +47,9 @@ def pool():
             D(2020, 1, 1, 12, 0, 0, 500000), D(1999, 12, 31, 23, 59, 59, 999000), D(2020, 1, 15, 6, 0, 0, 1000),
             D(9999, 12, 31), e.DIV_ZERO, e.NOT_AVAILABLE, e.VALUE, e.NAME]
     arrs = [[], [1], [2.5], [1, 2, 3], [4, 5, 6], [1, '2', None], [[1, 2], [3, 4]], [1, [2, 3]], ['a', 1], [D(2020, 1, 15), 1],
-            [e.NUM, 1], [1, 2], [[1], [2]], [True, False, None]]
+            [e.NUM, 1], [1, 2], [[1], [2]], [True, False, None],
+            # one-element arrays holding an array or an error (the shapes that exposed the asymmetric collapse)
+            [[1]], [[1, 2]], [[[7]]], [5], [e.NOT_AVAILABLE], [[e.NOT_AVAILABLE]], [[e.NOT_AVAILABLE, 2]]]
     foreign = [(1, 2), {'a': 1}]
     return scal, arrs, foreign
 
@@ -66,6 +68,8 @@ def cases(rng, ctx):
         core = [(i, j) for i, j in pairs if i < 17 and j < 17]
         dts = [k for k, v in enumerate(allv) if isinstance(v, datetime.datetime)]
         core += [(i, j) for i in dts for j in dts] + [(i, j) for i in dts for j in range(17)] + [(j, i) for i in dts for j in range(17)]       # numbers, logicals, blank: complete
+        ars = [k for k, v in enumerate(allv) if isinstance(v, list)]
+        core += [(i, j) for i in ars for j in ars]       # arrays against arrays (one-element collapse, nesting): complete
         pairs = core + rng.sample(pairs, k)
     for i, j in pairs:
         for op in OPS:
@@ -212,21 +216,19 @@ def expect(op, a, b):
         xs = ca[1] if ca[0] == 'arr' else None
         ys = cb[1] if cb[0] == 'arr' else None
         if xs is not None and ys is not None:
-            if len(xs) == 1 and len(ys) != 1:
+            # a one-element array acts as its element, on either side and at any depth;
+            # two one-element arrays give a one-element array
+            if len(xs) == 1 and len(ys) == 1:
+                return ('arr', [expect(op, xs[0], ys[0])])
+            if len(xs) == 1:
                 return expect(op, xs[0], b)
             if len(ys) == 1:
-                ys = None
-                b = cb[1][0]
-        if xs is not None and ys is not None:
+                return expect(op, a, ys[0])
             if len(xs) != len(ys):
                 return ('err', '#VALUE!')
             return ('arr', [expect(op, x, y) for x, y in zip(xs, ys)])
         if xs is not None:
-            if isinstance(b, list):
-                raise Skip()     # a nested one-element array on the right
             return ('arr', [expect(op, x, b) for x in xs])
-        if isinstance(a, list):
-            raise Skip()
         return ('arr', [expect(op, a, y) for y in ys])
     if ca[0] == 'text' or cb[0] == 'text':
         return ('err', '#VALUE!')
@@ -331,9 +333,11 @@ def oracle(c, impl_ans):
         p.set_variable('x', b)
         p.set_variable('y', a)
         r2 = p.parse('x' + op + 'y')
-        ca, cb = classify(a), classify(b)
-        both_err = ca[0] == 'err' and cb[0] == 'err'
-        if not both_err and not same_outcome(rec, r2):
+        # the two orders may differ only in WHICH error code is reported where both operands hold an
+        # error at corresponding positions (Lean: comm_add / comm_mul): exact equality when one operand
+        # is error-free, equality up to the error code otherwise
+        both_err = has_err(a) and has_err(b)
+        if not same_outcome(rec, r2, erase=both_err):
             return '%r %s %r = %r but swapped = %r (not commutative)' % (a, op, b, rec.get('result', rec.get('error')), r2)
     return None
 
@@ -346,15 +350,26 @@ def has_far_date(exp):
     return False
 
 
-def same_outcome(r1, r2):
+def has_err(v):
+    if isinstance(v, list):
+        return any(has_err(x) for x in v)
+    return isinstance(v, errs().XLError)
+
+
+def same_outcome(r1, r2, erase=False):
+    if erase and r1['error'] is not None and r2['error'] is not None and \
+            '#ERROR!' not in (r1['error'], r2['error']):
+        return True          # two error values at top level: the code may differ (a raised exception may not)
     if r1['error'] != r2['error']:
         return False
-    return _close(r1['result'], r2['result'])
+    return _close(r1['result'], r2['result'], erase)
 
 
-def _close(u, v):
+def _close(u, v, erase=False):
     if isinstance(u, list) and isinstance(v, list):
-        return len(u) == len(v) and all(_close(a, b) for a, b in zip(u, v))
+        return len(u) == len(v) and all(_close(a, b, erase) for a, b in zip(u, v))
+    if erase and isinstance(u, Exception) and isinstance(v, Exception):
+        return True
     if isinstance(u, float) or isinstance(v, float):
         try:
             return abs(u - v) <= 1e-12 * max(1.0, abs(u))
